@@ -24,6 +24,7 @@ func main() {
 	verif := flag.String("verif", "", "verif directory (default: directory above the binary, or cwd)")
 	list := flag.Bool("list", false, "list properties with a rule set")
 	out := flag.String("out", "", "directory for the evidence file (default <verif>/evidence)")
+	verbose := flag.Bool("v", false, "print every obligation")
 	flag.Parse()
 	if *list {
 		var ids []string
@@ -72,5 +73,14 @@ func main() {
 	r := newReport(*prop, *tier, seed)
 	fn(w, r)
 	r.evDir = *out
+	if *verbose {
+		for _, o := range r.Obls {
+			st := "ok "
+			if !o.Discharged {
+				st = "BAD"
+			}
+			fmt.Printf("%s %-6s %-60s | %s | %s | %s\n", st, o.Rule, o.Func, o.Construct, o.Pos, o.How)
+		}
+	}
 	os.Exit(r.finish(vdir))
 }
